@@ -248,6 +248,24 @@ Proof.
       destruct (x_challenge_names sc realm DR) as (v & _ & XC & CV). rewrite XC. simpl. rewrite CV. reflexivity.
 Qed.
 
+Lemma existsb_orb {A} (f g : A -> bool) l : existsb (fun x => f x || g x) l = existsb f l || existsb g l.
+Proof.
+  induction l as [|x r IH]; simpl; [reflexivity|]. rewrite IH.
+  destruct (f x), (g x), (existsb f r), (existsb g r); reflexivity.
+Qed.
+
+Lemma existsb_ext_all {A} (f g : A -> bool) l : (forall x, f x = g x) -> existsb f l = existsb g l.
+Proof. intro H. induction l as [|x r IH]; simpl; [reflexivity|]. rewrite H, IH. reflexivity. Qed.
+
+Lemma g_F2_split fx k : g_F2 fx k = false <-> g_F2o fx k = false /\ g_F5 k = false.
+Proof.
+  unfold g_F2, g_F2o, g_F5, guard_F2, xguard_F2.
+  rewrite guard_F2_class_split.
+  rewrite (existsb_ext_all _ _ _ (fun x => guard_F2_class_split _ x)).
+  rewrite existsb_orb.
+  repeat rewrite orb_false_iff. tauto.
+Qed.
+
 (** with no guard firing nothing is waived: correspondence implies the property predicate *)
 Corollary eval_sound_unguarded fx k :
   corr fx k = true -> oracle_ok (k_nv k) (k_or k) = true -> v_guards (check fx k) = [] -> prop k = true.
@@ -256,7 +274,8 @@ Proof.
   unfold check, guards in G. simpl in G.
   assert (W : waived fx k = no_waiver).
   { unfold waived, no_waiver.
-    destruct (g_F1 fx k); [discriminate|]. destruct (g_F2 fx k); [discriminate|].
-    destruct (g_F4 fx k); [discriminate|]. reflexivity. }
+    destruct (g_F1 fx k); [discriminate|]. destruct (g_F2o fx k) eqn:A; [discriminate|].
+    destruct (g_F5 k) eqn:B; [discriminate|]. destruct (g_F4 fx k); [discriminate|].
+    rewrite (proj2 (g_F2_split fx k) (conj A B)). reflexivity. }
   rewrite W in S. exact S.
 Qed.
